@@ -419,8 +419,8 @@ def run(chk, repo, tier):
                        "x1 / x2, the curve E' and the sign rule. The isogeny code is walked with symbolic (x, y, z) and compared with "
                        "the rational map of the tabulated coefficients, which is checked to send E' to E.")
     chk.rule("C10.R1", "pipeline terms and name resolution; expand_message_xmd / hash_to_field as C15 requires", 3 + 10)
-    chk.rule("C10.R2", "simplified SWU per path vs RFC 9380 §6.6.2 (F.2), incl. exceptional case; sqrt-of-ratio helpers sound and complete", 8 + 26)
-    chk.rule("C10.R3", "sign rule sgn0(y) = sgn0(t) on the affine root; sgn0 is RFC 9380 §4.1 (C14.R2)", 2 + 26 + 6)
+    chk.rule("C10.R2", "simplified SWU per path vs RFC 9380 §6.6.2 (F.2), incl. exceptional case; sqrt-of-ratio helpers sound and complete", 8 + 20)
+    chk.rule("C10.R3", "sign rule sgn0(y) = sgn0(t) on the affine root; sgn0 is RFC 9380 §4.1 (C14.R2)", 2 + 20 + 6)
     chk.rule("C10.R4", "isogeny code = rational map of the coefficient tables; the tables define maps E' → E", 4)
     chk.rule("C10.R5", "suite constants: A', B', Z as in RFC 9380 §8.8; Z non-square; exponents equal their names", 4)
     chk.not_decided += ["Fermat's little theorem in F_p and F_p² (axiom: turns the large powers into roots of unity)",
